@@ -104,6 +104,15 @@ def parse : Nat → List Tok → Option (List Tok)
 
 def WF (ts : List Tok) : Bool := parse (ts.length + 1) ts == some []
 
+/-- the same grammar, declaratively (the SPDX annex's ABNF over tokens); `C19.WF_iff_compound` proves that
+the recogniser above decides exactly this predicate -/
+inductive Compound : List Tok → Prop
+  | simple (a : Str) : isSimple a = true → Compound [.word a]
+  | withExc (a e : Str) : isSimple a = true → isException e = true → Compound [.word a, .with, .word e]
+  | and (x y : List Tok) : Compound x → Compound y → Compound (x ++ .and :: y)
+  | or (x y : List Tok) : Compound x → Compound y → Compound (x ++ .or :: y)
+  | paren (x : List Tok) : Compound x → Compound (.lp :: x ++ [.rp])
+
 /-! ## canonical form -/
 
 def sLP : Str := [40]
